@@ -45,6 +45,22 @@ def extract_switch():
     return {k: sorted(v) for k, v in lits.items()}
 
 
+def lean_strategy_function_obligation(tables):
+    """the Lean function Merge.notebookStrategies equals notebook_merge_strategies on every accepted option combination"""
+    def opt(x):
+        return 'none' if x is None else '(some %s)' % json.dumps(x)
+    rows = []
+    for key, tab, tr in tables:
+        m, i, o, t = key
+        rows.append('  ((⟨%s, %s, %s, %s⟩ : Merge.MergeArgs), [%s], [%s])' % (
+            json.dumps(m), opt(i), opt(o), 'true' if t else 'false',
+            ', '.join('(%s, %s)' % (json.dumps(k), json.dumps(v)) for k, v in tab), ', '.join(json.dumps(x) for x in tr)))
+    return ('import NbdimeProofs\nopen Nbdime\n'
+            'def extractedRows : List (Merge.MergeArgs × List (String × String) × List String) := [\n' + ',\n'.join(rows) + '\n]\n'
+            'set_option maxRecDepth 1000000 in\nexample : extractedRows.all (fun r => (Merge.notebookStrategies r.1).table == r.2.1 && '
+            'sortStrs (Merge.notebookStrategies r.1).transients == r.2.2) = true := by decide +kernel\n'), 1
+
+
 def lean_obligations(tables, switch):
     def sl(xs):
         return '[' + ', '.join(json.dumps(x) for x in xs) + ']'
@@ -69,6 +85,13 @@ def _run_property(ctx):
         src, n = lean_obligations(tables, switch)
         ok, out = vlib.lean_run(src, 'C03_Tables.lean')
         ctx.cov['obligations'] += n
+        src2, n2 = lean_strategy_function_obligation(tables)
+        ok2, out2 = vlib.lean_run(src2, 'C03_StrategyFunction.lean')
+        ctx.cov['obligations'] += n2
+        if ok2:
+            ctx.cov['discharged'] += n2
+        else:
+            note = 'Merge.notebookStrategies differs from notebook_merge_strategies: ' + out2[-500:]
         ctx.cov['extracted'] = {'combinations': len(tables), 'switch_literals': switch, 'sample_table': tables[0]}
         if ok:
             ctx.cov['discharged'] += n
